@@ -8,6 +8,9 @@
      OBlankTop k   k blank lines at the top
      OCrlf         write the document with CRLF line ends
      OAppend e     append the lines e (blank line + an unrelated rule + final line end)
+   Which shift amounts the enumeration uses is part of the model too ([boundary_shifts]): rules that order or compare
+   locations as text go wrong exactly where the number of digits of a row changes (9|10, 99|100, 999|1000), so
+   every row of a document is put on the last row before such a boundary by some selected shift.
    Definitions only; proofs in Proofs/Layout.v. *)
 From Regal Require Import Base.Str.
 From Coq Require Import List NArith Bool Arith.
@@ -136,3 +139,26 @@ Definition strip_cr (l : str) : str :=
   | c :: r => if N.eqb c CR then rev r else l
   | [] => l
   end.
+
+(* ---- which shifts are enumerated: the boundary shifts of a document ----
+   A location string "9:3:9:4" sorts after "10:1:10:2" as text, a set of locations is iterated in term order, etc.:
+   code that treats rows as text misbehaves only when two rows it relates have a different number of digits.  For a
+   target row t (9, 99, 999: the last row with that many digits) the boundary shifts of a document are the amounts k
+   of blank lines at the top ([OBlankTop k]) that put one of its rows on row t, hence the next row on t + 1 and every
+   pair of rows (a, b), a < b, on the two sides of the boundary for k = t - a.
+   [only_nonblank]: rows holding nothing but spaces / tabs carry no location and may be left out (used where
+   every embedding costs a lint call of its own). *)
+Definition blank_byte (c : N) : bool := N.eqb c 32 || N.eqb c 9.
+Definition blank_line (l : str) : bool := forallb blank_byte l.
+
+(* the rows (0-based, counted from i) that are selected *)
+Fixpoint rows_from (only_nonblank : bool) (i : nat) (d : doc) {struct d} : list nat :=
+  match d with
+  | [] => []
+  | l :: d' => if only_nonblank && blank_line l then rows_from only_nonblank (S i) d'
+               else i :: rows_from only_nonblank (S i) d'
+  end.
+
+(* k = t - r for every selected row r (1-based: r = S i) with r <= t *)
+Definition boundary_shifts (only_nonblank : bool) (t : nat) (d : doc) : list nat :=
+  map (fun i => (t - S i)%nat) (filter (fun i => Nat.leb (S i) t) (rows_from only_nonblank O d)).
